@@ -3,13 +3,13 @@ import vpcore as v
 from vprun import Run
 import framing_common as fc
 
-SWEEPS = ["attr", "nlri", "cap", "open", "ex"]
+SWEEPS = ["attr", "ext", "nlri", "cap", "open", "ex"]
 
 
 def main(run: Run):
     thorough = run.tier == "thorough"
     if not run.replay:
-        fc.design(run, ["attr", "nlri", "other"])
+        fc.design(run, ["attr", "ext", "nlri", "other"])
     for sw in SWEEPS + ["random"]:
         if run.replay:
             behs = run.replay_behaviours(sw)
